@@ -83,6 +83,21 @@ theorem slink_ext (st : St) (s : ObjId) : Ext st { st with slink := upd st.slink
       · exact h
     all_goals exact h
 
+theorem linkCell_ext (st : St) (o : ObjId) : Ext st (st.linkCell o) := by
+  unfold St.linkCell
+  refine ⟨rfl, ?_, ?_, ?_, ?_, ?_⟩
+  · intro x; simp only [updCell_cellOf]; split <;> (try subst_vars) <;> rfl
+  · intro x t ht; simp only [updCell_cellOf]; split <;> (try subst_vars) <;> exact ht
+  · intro x t ht; simp only [updCell_cellOf]; split <;> (try subst_vars) <;> exact ht
+  · intro k; cases k <;> rfl
+  · intro k x h
+    cases k
+    · simp only [St.linked, updCell_cellOf] at h ⊢
+      split
+      · rfl
+      · exact h
+    all_goals (simp only [St.linked] at h ⊢; first | exact h | (split <;> first | rfl | exact h))
+
 theorem cellSurfAppend_spec (st : St) (c s : ObjId) :
     Ext st (cellSurfAppend st c s).1 ∧
     ((cellSurfAppend st c s).2 = none → s ∈ ((cellSurfAppend st c s).1.cellOf c).surfs) := by
@@ -107,8 +122,7 @@ theorem cellCompAppend_spec (st : St) (c d : ObjId) :
       updCell_ext st c _ rfl (fun _ h => h) (fun t ht => by simp [ht]) (fun h => h)
     have hm : d ∈ ((st.updCell c (fun cs => { cs with comps := cs.comps ++ [d] })).cellOf c).comps := by simp
     split
-    · have e2 := updCell_ext (st.updCell c (fun cs => { cs with comps := cs.comps ++ [d] })) d
-        (fun ds => { ds with link := true, contLinked := true }) rfl (fun _ h => h) (fun _ h => h) (fun _ => rfl)
+    · have e2 := linkCell_ext (st.updCell c (fun cs => { cs with comps := cs.comps ++ [d] })) d
       exact ⟨e1.trans e2, fun _ => e2.comps c d hm⟩
     · exact ⟨e1, fun _ => hm⟩
 
